@@ -2,6 +2,9 @@ module verifharness
 
 go 1.13
 
-require github.com/ctessum/geom v0.0.0
+require (
+	github.com/ctessum/geom v0.0.0
+	github.com/jonas-p/go-shp v0.1.2-0.20190401125246-9fd306ae10a6
+)
 
 replace github.com/ctessum/geom => /repo
